@@ -3,7 +3,7 @@ import json
 import os
 import vlib
 
-PROPS = ['Rangers.Props.C04']
+PROPS = ['Rangers.Props.C04', 'Rangers.Props.C04B']
 DRIVERS = ['C04']
 BOUND_TOKEN = 'b0' + '5e' * 19      # a non-zero bound token contract for the second configuration
 
@@ -20,6 +20,18 @@ META = dict(
     rule='distinct op lines sent to both implementation and model whose model answer is not bad-op',
     explanation='see design/C04.md',
 )
+
+
+def gen(ctx):
+    """T-gen: regenerate Rangers/Generated/JournalFacts.lean from the working tree."""
+    tmp = os.path.join(ctx.work, 'JournalFacts.lean')
+    if os.path.exists(tmp):
+        os.remove(tmp)
+    rc, so, se = vlib.go_run_gen(ctx, 'c04facts', [ctx.repo, tmp])
+    if rc != 0 or not os.path.exists(tmp):
+        return dict(ok=False, error='c04facts failed: ' + (se or so)[-600:])
+    changed = vlib.write_if_changed(os.path.join(vlib.LEAN, 'Rangers', 'Generated', 'JournalFacts.lean'), open(tmp).read())
+    return dict(ok=True, changed=changed, summary=so.strip())
 
 
 def canon(op, ans):
